@@ -666,11 +666,39 @@ func (w *World) checkKeyedAccess(r *Report, keyT types.Type) {
 					return
 				}
 				byCachedIndex := len(c.Call.Args) > 1 && isNamedField(unspill(c.Call.Args[1]), "fieldIndex")
+				if !byCachedIndex && len(c.Call.Args) > 1 {
+					// the cached index handed to a helper: at every call site it is entry.fieldIndex
+					if p, field, ok := paramOrigin(unspill(c.Call.Args[1])); ok {
+						if cvs, ok := callerValues(p, field); ok && len(cvs) > 0 {
+							byCachedIndex = true
+							for _, cv := range cvs {
+								if !isNamedField(unspill(cv.val), "fieldIndex") {
+									byCachedIndex = false
+								}
+							}
+						}
+					}
+				}
 				if k == nil && !byCachedIndex {
 					return
 				}
 				n++
-				if !isKeyVal(c.Call.Args[0]) {
+				keyed := isKeyVal(c.Call.Args[0])
+				if !keyed {
+					// the Value handed to a helper (as a parameter or as a field of a record): at
+					// every call site it is a Value whose Type() keys the cache
+					if p, field, ok := paramOrigin(unspill(c.Call.Args[0])); ok {
+						if cvs, ok := callerValues(p, field); ok && len(cvs) > 0 {
+							keyed = true
+							for _, cv := range cvs {
+								if !isKeyVal(cv.val) {
+									keyed = false
+								}
+							}
+						}
+					}
+				}
+				if !keyed {
 					badAcc = w.posOf(in.Pos())
 				}
 			}
